@@ -663,6 +663,17 @@ def imm_cases() -> list[tuple[str, callable, str, int]]:
         cs.append((f"Arg({s})", _val(lambda s=s: pt.Arg(s)), "sig", 6))
         cs.append((f"ScratchVar(slot={s})", (lambda s=s: pt.Seq((v := pt.ScratchVar(pt.TealType.uint64, s)).store(u()), pt.Pop(v.load()),
                                                                  pt.Approve())), "app", 6))
+    # twins: the same immediate next to an operand taken from the stack (another opcode carries the immediate)
+    for s in (-1, 0, 255, 256, 300, 1000):
+        cs.append((f"ImportScratchValue(e,{s})", _val(lambda s=s: pt.ImportScratchValue(u(), s)), "app", 6))
+        cs.append((f"Gtxn[e].accounts[{s}]", _val(lambda s=s: pt.Gtxn[u()].accounts[s]), "app", 6))
+        cs.append((f"Gtxn[e].assets[{s}]", _val(lambda s=s: pt.Gtxn[u()].assets[s]), "app", 6))
+        cs.append((f"Gtxn[{s}].application_args[e]", _val(lambda s=s: pt.Gtxn[s].application_args[u()]), "app", 6))
+        cs.append((f"Gitxn[{s}].application_args[e]", _val(lambda s=s: pt.Gitxn[s].application_args[u()]), "app", 6))
+        cs.append((f"Gitxn[1].application_args[{s}]", _val(lambda s=s: pt.Gitxn[1].application_args[s]), "app", 6))
+        cs.append((f"InnerTxn.application_args[{s}]", _val(lambda s=s: pt.InnerTxn.application_args[s]), "app", 6))
+        cs.append((f"Txn.assets[{s}]", _val(lambda s=s: pt.Txn.assets[s]), "app", 6))
+        cs.append((f"ScratchLoad(slotId={s})", _val(lambda s=s: pt.ScratchLoad(slotId=s, type=pt.TealType.uint64) if True else None), "app", 6))
     for a, bb in ((0, 255), (255, 256), (256, 300), (3, 1000)):
         cs.append((f"Substring({a},{bb})", _val(lambda a=a, bb=bb: pt.Substring(pt.Txn.note(), I(a), I(bb))), "app", 6))
         cs.append((f"Substring({a},{bb})v2", _val(lambda a=a, bb=bb: pt.Substring(pt.Txn.note(), I(a), I(bb))), "sig", 2))
